@@ -11,7 +11,21 @@ def evStr : Ev → String | .post => "post" | .validate => "validate"
 /-- case: {"env", "fields": [[name, ann, val]], "typeSafe": bool, "post": "absent" | "runs" | ["raises", id],
            "path": "constructor" | "copy_with" | "deep_copy_with" | "validate"} -/
 def handle (c : Json) : Json :=
-  let env := parseEnv (jF c "env")
+  let env0 := parseEnv (jF c "env")
+  -- optional: names bound in the frame of the function that executes the operation, and that function's name
+  let locals : List (NameId × ClsId) := (jL (jF c "locals")).map fun e => (jN (jAt e 0), jN (jAt e 1))
+  let callerName := match jF c "caller" with | .str s => s | _ => "execute"
+  let caller : Frame := { name := callerName }
+  let parseFrame (j : Json) : Frame := { name := jS (jAt j 0), code := jS (jAt j 1), inDataclasses := jB (jAt j 2), holdsInstance := jB (jAt j 3) }
+  -- one chain per validating wrapper; default: the generated __init__ only
+  let chains : List (List Frame) := match jF c "chains" with
+    | .arr a => a.toList.map fun ch => (jL ch).map parseFrame
+    | _ => [[{ name := "__init__", holdsInstance := true }]]
+  let outer : List Frame := [{ name := "<harness>" }]
+  let pstr := jS (jF c "path")
+  let pth : Path := if pstr == "copy_with" then .copyWith else if pstr == "deep_copy_with" then .deepCopyWith else .constructor
+  let env := env0.withCaller locals (if pstr == "validate" then userValidateSeesCaller else chains.all fun ch => seesCaller pth ch caller outer)
+  let envS := env0.atCallSite locals
   let fvs : List (Field × Val) := (jL (jF c "fields")).map fun f => (⟨jN (jAt f 0), parseAnn (jAt f 1)⟩, parseVal (jAt f 2))
   let ts := jB (jF c "typeSafe")
   let up : UserPost := match jF c "post" with
@@ -19,7 +33,7 @@ def handle (c : Json) : Json :=
     | .str _ => .absent
     | j => if jTag j == "raises" then .raises (jN (jAt j 1)) else .absent
   let orc : Nat → Val → Raw := fun _ _ => .raisedOther
-  let spec := allConform env fvs
+  let spec := allConform envS fvs
   let guards := fvs.all (fun fv => fv.1.ann.inVocab && fv.2.plain)
   let regions := (fvs.map fun fv => PedVerif.Drv.Checker.regions fv.1.ann fv.2).flatten.eraseDups
   match jS (jF c "path") with
